@@ -72,8 +72,16 @@ def _history(kind, ops, ival):
                         else ['91%02d' % counter, '92%02d IsolateDestAddr' % counter]
                     if kind == 'ports' and counter % 2 == 0:
                         newl = [0]           # "SocksPort 0": a list whose only element is falsy
-                    setattr(cfg, name, list(newl))
-                    intended[name] = list(newl)
+                    if kind == 'ports' and counter % 3 == 0 and known('C10-string-to-portlist'):
+                        assume(False)        # region of the listed known finding (re-checked by its witness)
+                    if kind in ('comma', 'ports') and counter % 3 == 0:
+                        # a plain string given to a list-valued option is one value, not a sequence of characters
+                        sval = 'n%d,second%d' % (counter, counter) if kind == 'comma' else '96%02d' % counter
+                        setattr(cfg, name, sval)
+                        intended[name] = [sval]
+                    else:
+                        setattr(cfg, name, list(newl))
+                        intended[name] = list(newl)
                 else:
                     val, text = _scalar_value(kind, counter, ival)
                     setattr(cfg, name, val)
@@ -190,7 +198,8 @@ def _history(kind, ops, ival):
                     # reads return the saved values
                     v = cfg.__getattr__(name)
                     if listy:
-                        if [str(x) for x in v] != [str(x) for x in intended[name]]:
+                        flat = (lambda xs: ','.join(str(x) for x in xs).split(',')) if kind == 'comma' else (lambda xs: [str(x) for x in xs])
+                        if flat(v) != flat(intended[name]):
                             return R('read-after-save-differs', '%s: %r vs %r', name, list(v), intended[name])
                     if cfg.__getattr__('Nickname') != intended['Nickname'][0]:
                         return R('read-after-save-differs', 'Nickname %r', cfg.__getattr__('Nickname'))
@@ -339,3 +348,56 @@ def c10_types(ti: int, op: int) -> str:
     op = api.pick(op, 0, 4)
     with api.no_tracing():
         return _one_type(ti, op)
+
+
+def _overlap(first_listy, second_listy, accept_first):
+    """a second change and a second save() while Tor has not answered the first SETCONF yet"""
+    with api.no_tracing():
+        p, t, tor = make_world(dict(INITIAL), True, {})
+        cfg, out = bootstrap(p, tor)
+        if out.ok != 1:
+            return 'harness: bootstrap failed %r' % (out.exc(),)
+    try:
+        want = {}
+
+        def change(listy, tag):
+            if listy:
+                cfg.__getattr__('Log').append('info file /' + tag)
+                want['Log'] = ['notice stdout'] + ['info file /' + x for x in want.get('_logs', []) + [tag]]
+                want.setdefault('_logs', []).append(tag)
+            else:
+                cfg.Nickname = 'nick' + tag
+                want['Nickname'] = ['nick' + tag]
+        change(first_listy, 'one')
+        if not accept_first:
+            tor.reject_setconf.append(552)
+        o1 = fakes.Outcome(cfg.save())            # written, Tor's answer is still outstanding
+        if len(tor.pending()) != 1:
+            return R('save-did-not-write-one-command', '%r', tor.pending())
+        change(second_listy, 'two')
+        o2 = fakes.Outcome(cfg.save())
+        for _ in range(10):
+            if not tor.pump():
+                break
+        if not accept_first and o1.err != 1:
+            return R('rejected-save-did-not-fail')
+        if o2.ok != 1:
+            return R('accepted-save-did-not-succeed', '%r', o2.exc())
+        for k, v in want.items():
+            if k.startswith('_'):
+                continue
+            if tor.options[k]['values'] != v:
+                return R('pending-changes-not-carried-by-a-later-save', '%s: tor %r intended %r (setconfs %r)', k, tor.options[k]['values'], v, tor.setconfs)
+        if cfg.needs_save():
+            return R('needs_save-true-after-acknowledged-save')
+    except Exception as e:
+        return R('exception', '%s: %s', type(e).__name__, e)
+    reached()
+    return ''
+
+
+@cond(quick=dict(budget=60))
+def c10_overlapping_saves(first_listy: bool, second_listy: bool, accept_first: bool) -> str:
+    """change, save, change, save before Tor has answered the first save (accepted or rejected), then both answers arrive"""
+    with api.no_tracing():
+        return _overlap(True if first_listy else False, True if second_listy else False, True if accept_first else False)
